@@ -252,7 +252,7 @@ def gen_re_cases(r, subjects, re0, re1, flagsets, quick):
 
 
 # --- running and judging ----------------------------------------------------------------------------------
-def run_cases(work, vh, cases, tag, budget="2s"):
+def run_cases(work, vh, cases, tag, budget="5s"):
     cpath, tpath = work.path(tag + ".cases.ndjson"), work.path(tag + ".trace.ndjson")
     vc.write_ndjson(cpath, cases)
     vc.sh([vh, "c14run", "-in", cpath, "-out", tpath, "-budget", budget, "-j", str(vc.NCPU)], timeout=7200)
